@@ -141,9 +141,9 @@ def _pins(m, cond):
     return pins
 
 
-def _run_history(npr, k, cons, events=None):
+def _run_history(npr, k, cons, events=None, flood=None):
     from harness import C30_hist as HH
-    return HH.explore_history(npr, k, constraints=cons, events=events or HH.EVENTS)
+    return HH.explore_history(npr, k, constraints=cons, events=events or HH.EVENTS, flood_sizes=flood)
 
 
 def decide_history(spec):
@@ -152,7 +152,7 @@ def decide_history(spec):
     t0 = time.time()
     npr, k = spec['npr'], spec['k']
     cons = [z3.Int(n) == i for n, i in (spec.get('shard') or {}).items()]
-    outs, ex = _run_history(npr, k, cons)
+    outs, ex = _run_history(npr, k, cons, spec.get('events'), spec.get('flood'))
     allc = ex.constraints
     res = {'spec': spec, 'paths': len(outs), 'solver_calls': ex.solver_calls, 'merging_paths': 0, 'merges': 0,
            'updates': 0, 'events': 0, 'aborted_updates': 0, 'violations': [], 'validated': 0, 'samples': []}
@@ -165,6 +165,7 @@ def decide_history(spec):
         res['updates'] += w.updates
         res['events'] += len(w.trace)
         res['aborted_updates'] += len(w.aborted_updates)
+        res['graphql_pages'] = res.get('graphql_pages', 0) + w.gh.graphql_pages
         if w.gh.merges:
             res['merging_paths'] += 1
             res['merges'] += len(w.gh.merges)
@@ -183,7 +184,7 @@ def decide_history(spec):
     while r == 'sat' and len(res['violations']) < 3:
         o, what, f = next(x for x in bad if z3.is_true(m.eval(x[2], model_completion=True)))
         pins = _pins(m, f)
-        rep = replay_history({'npr': npr, 'k': k, 'pins': pins}, quiet=True)
+        rep = replay_history({'npr': npr, 'k': k, 'pins': pins, 'events': spec.get('events'), 'flood': spec.get('flood')}, quiet=True)
         res['violations'].append({'what': what, 'events': [str(t) for t in o.value.trace], 'pins': pins,
                                   'reproduced': rep == 1})
         seen.add(what.split(': ')[-1])
@@ -197,7 +198,7 @@ def decide_history(spec):
         if r2 != 'sat':
             raise HarnessError('explored path has an unsatisfiable path condition')
         outs2, _ = _run_history(npr, k, [(_c(n) == val) if not isinstance(val, bool) else (z3.Bool(n) == val)
-                                         for n, val in _pins(m2, o.cond).items()])
+                                         for n, val in _pins(m2, o.cond).items()], spec.get('events'), spec.get('flood'))
         got = [[(x['pr'], x['head'], x['target_before']) for x in p.value.gh.merges] for p in outs2]
         want = [(x['pr'], x['head'], x['target_before']) for x in o.value.gh.merges]
         if got != [want]:
@@ -214,7 +215,7 @@ def _c(name):
 def replay_history(rp, quiet=False):
     from harness import C30_hist as HH
     cons = [(z3.Bool(n) == val) if isinstance(val, bool) else (z3.Int(n) == val) for n, val in rp['pins'].items()]
-    outs, ex = _run_history(rp['npr'], rp['k'], cons)
+    outs, ex = _run_history(rp['npr'], rp['k'], cons, rp.get('events'), rp.get('flood'))
     hit = 0
     for o in outs:
         if o.exc is not None:
